@@ -303,7 +303,7 @@ func runKM4(c *Ctx, s *Sink) {
 
 func init() {
 	register(&Rule{
-		ID: "KM-5", Props: []string{"C19", "C20"}, Min: 2,
+		ID: "KM-5", Props: []string{"C19", "C20"}, Min: 3,
 		Doc: `the k-mer mask is built without overflowing when the k-mer fills the word: in NewKmerMap every LeftShift of the constant one by an amount 2·kmersize + c (kmersize is bounded only
 by the word width: 32 symbols in Uint64, 64 in Uint128 — the range the property quantifies over) has c < 0; (1 << 2k) − 1 shifts the one out of the word for the largest k, the mask becomes 0 − 1
 and the fixed-precision Sub panics; and every unsigned shift amount computed by a subtraction (2k − 1, k − 1 − sparseAt) is proved non-negative on every path reaching it (paths ended by
@@ -435,6 +435,38 @@ func runKM5(c *Ctx, s *Sink) {
 			return true
 		})
 	})
+	// (3) the k-mer fits the word: before the mask, a guard ends the program when the size exceeds a bound that is not a
+	// constant of the function (the width depends on the type parameter)
+	key3 := "pkg/obikmer.NewKmerMap:kmer-fits-the-word"
+	fits := false
+	for _, st := range fd.Body.List {
+		ifs, ok := st.(*ast.IfStmt)
+		if !ok {
+			continue
+		}
+		b, ok := ast.Unparen(ifs.Cond).(*ast.BinaryExpr)
+		if !ok || (b.Op != token.GTR && b.Op != token.GEQ) || rootObj(info, b.X) != kobj {
+			continue
+		}
+		if _, isCall := ast.Unparen(b.Y).(*ast.CallExpr); !isCall {
+			continue
+		}
+		ends := false
+		ast.Inspect(ifs.Body, func(m ast.Node) bool {
+			if call, ok := m.(*ast.CallExpr); ok && linEndsProgram(info, call) {
+				ends = true
+			}
+			return true
+		})
+		if ends {
+			fits = true
+		}
+	}
+	if fits {
+		s.Pass(nil, key3, fd.Pos(), "a k-mer size beyond what the word of the type parameter holds ends the program with a message")
+	} else {
+		s.Fail(nil, key3, fd.Pos(), "nothing compares the k-mer size with the width of the word: a k-mer that does not fit is 'refused' by the arithmetic panic of the mask (obikmersimcount -k 66: Uint128 underflow at Sub({0 0}, {0 1}) and a goroutine dump), where the sibling De Bruijn graph refuses it with a message")
+	}
 	switch {
 	case wrap != "":
 		s.Fail(nil, key2, wrapPos, "an unsigned shift amount computed by a subtraction is not proved non-negative on every path ("+wrap+"): for a k-mer size of 0 — reached by -k 0, and by -k 1 which the parity adjustment decrements — 2k − 1 wraps to 2^64 − 1, the shift empties the word and the fixed-precision Sub(1) panics (obikmersimcount -k 1: Uint128 underflow at Sub({0 0}, {0 1}), exit status 2) instead of refusing the size")
